@@ -8,6 +8,8 @@
 package main
 
 import (
+	"crypto/sha256"
+	"encoding/hex"
 	"go/ast"
 	"go/token"
 	"strconv"
@@ -160,5 +162,85 @@ func main() {
 		return true
 	})
 	out.Def("readDirMutatesReceiver", "Bool", xlib.LeanBool(mut))
+
+	// canonical skeletons of everything the model transcribes (digests; the text is kept as a comment)
+	emitSkeleton(out, "skelFindNode", skeleton(f, fn, 0))
+	emitSkeleton(out, "skelOpenRec", skeleton(f, op, 0))
+	emitSkeleton(out, "skelReadDir", skeleton(f, rd, 0))
+	emitSkeleton(out, "skelOpen", skeleton(f, f.Func("CASFileSystem.Open"), 0))
+	emitSkeleton(out, "skelFindNodeAPI", skeleton(f, f.Func("CASFileSystem.FindNode"), 0))
+	emitSkeleton(out, "skelStat", skeleton(f, f.Func("CASFileSystem.Stat"), 0))
+	emitSkeleton(out, "skelNew", skeleton(f, f.Func("New"), 0))
+	emitSkeleton(out, "skelChangeDir", skeleton(f, f.Func("CASFileSystem.ChangeDir"), 0))
+	emitSkeleton(out, "skelOpenDir", skeleton(f, f.Func("CASFileSystem.openDir"), 0))
+	emitSkeleton(out, "skelOpenFile", skeleton(f, f.Func("CASFileSystem.openFile"), 0))
+	g := xlib.Parse("src/remote/fs/info.go")
+	for _, n := range []string{"newFileInfo", "newDirInfo", "newSymlinkInfo", "info.withProperties"} {
+		emitSkeleton(out, "skelInfo_"+strings.ReplaceAll(n, ".", "_"), skeleton(g, g.Func(n), 0))
+	}
 	out.Write()
+}
+
+// skeleton renders the statements of fn's body from index `from` on, canonically: parameters and receiver
+// named by position, locals by order of declaration, long message strings blanked.
+func skeleton(f *xlib.File, fn *ast.FuncDecl, from int) string {
+	names := map[*ast.Object]string{}
+	np := 0
+	if fn.Recv != nil {
+		for _, fl := range fn.Recv.List {
+			for _, n := range fl.Names {
+				if n.Obj != nil {
+					names[n.Obj] = "r" + strconv.Itoa(np)
+				}
+				np++
+			}
+		}
+	}
+	np = 0
+	for _, fl := range fn.Type.Params.List {
+		for _, n := range fl.Names {
+			if n.Obj != nil {
+				names[n.Obj] = "p" + strconv.Itoa(np)
+			}
+			np++
+		}
+	}
+	nv := 0
+	ast.Inspect(fn.Body, func(n ast.Node) bool {
+		if id, ok := n.(*ast.Ident); ok && id.Obj != nil && id.Obj.Kind == ast.Var {
+			if _, seen := names[id.Obj]; !seen {
+				if d, ok := id.Obj.Decl.(ast.Node); ok && d.Pos() >= fn.Body.Pos() && d.End() <= fn.Body.End() {
+					names[id.Obj] = "v" + strconv.Itoa(nv)
+					nv++
+				}
+			}
+		}
+		return true
+	})
+	ast.Inspect(fn.Body, func(n ast.Node) bool {
+		switch x := n.(type) {
+		case *ast.Ident:
+			if x.Obj != nil {
+				if nm, ok := names[x.Obj]; ok {
+					x.Name = nm
+				}
+			}
+		case *ast.BasicLit:
+			if x.Kind == token.STRING && len(x.Value) > 6 && strings.Contains(x.Value, " ") {
+				x.Value = `"…"`
+			}
+		}
+		return true
+	})
+	var parts []string
+	for _, st := range fn.Body.List[from:] {
+		parts = append(parts, f.Src(st))
+	}
+	return strings.Join(parts, " ; ")
+}
+
+func emitSkeleton(out *xlib.Out, name, text string) {
+	sum := sha256.Sum256([]byte(text))
+	out.Raw("-- " + name + ": " + text)
+	out.Def(name, "String", xlib.LeanStr(hex.EncodeToString(sum[:12])))
 }
